@@ -234,15 +234,33 @@ Section Decode.
       rewrite Hmm, <- M. destruct (texts_data trim texts); reflexivity.
   Qed.
 
+  (* end tags at the very end of the stream are redundant: the end of the
+     input closes what is still open (repaired in /repo) *)
+  Lemma run_ends names : forall st, exists st', d_run (List.map TEnd names) st = DOk st' /\ d_root st' = d_root st.
+  Proof.
+    induction names as [|nm names IH]; intro st; [exists st; split; reflexivity|].
+    cbn [List.map Xml.d_run Xml.d_step]. destruct (d_stack st) as [|[pl pn] rest] eqn:Es.
+    - destruct (IH st) as (st' & H1 & H2). exists st'. split; assumption.
+    - destruct (IH (mkD true (pl, node_add (fst (d_cur st)) (snd (d_cur st)) pn) rest)) as (st' & H1 & H2).
+      exists st'. split; [exact H1|]. rewrite H2. unfold d_root. rewrite Es. reflexivity.
+  Qed.
+
+  Theorem xml_trailing_ends_redundant toks names :
+    decode_toks trim P (toks ++ List.map TEnd names) = decode_toks trim P toks.
+  Proof.
+    unfold decode_toks. rewrite d_run_app. destruct (d_run toks (d_init)) as [st|]; [|reflexivity].
+    destruct (run_ends names st) as (st' & H1 & H2). rewrite H1, H2. reflexivity.
+  Qed.
+
   (* decoding the tokens of any ordered forest gives the document it denotes *)
   Theorem xml_decode_denotes f : decode_toks trim P (forest_toks f) = XOk (forest_val trim P f).
   Proof.
-    unfold decode_toks. rewrite run_forest. unfold d_init, d_root. cbn [d_stack d_cur last fst snd xchildren xdata].
+    unfold decode_toks. rewrite run_forest. unfold d_init, d_root. cbn [d_stack d_cur close_all fst snd xchildren xdata].
     destruct f as [|t f]; [reflexivity|].
     unfold forest_val.
     assert (Hne : add_all (kid_entries (t :: f)) [] <> []).
     { intro H. apply add_all_nil_iff in H as [H _]. discriminate. }
-    cbn [d_stack d_cur last fst snd]. rewrite (convert_node _ _ Hne). cbn [app]. f_equal. f_equal.
+    cbn [d_stack d_cur close_all fst snd]. rewrite (convert_node _ _ Hne). cbn [app]. f_equal. f_equal.
     assert (Hm : List.map (fun k => (elem_label P (oname k), val_of trim P k)) (t :: f) =
                  List.map (fun kv => (fst kv, convert P (snd kv))) (kid_entries (t :: f))).
     { unfold kid_entries. rewrite map_map. apply map_ext. intro k. cbn [fst snd]. rewrite convert_tree. reflexivity. }
